@@ -125,7 +125,7 @@ Value& MemberINSERTExpression::value(Context& ctx) const
       case Type::INTEGER:
         if (a1_type == Type::NUMERIC)
         {
-          rv->insert(rv->begin() + p, Value(Value::toInteger(*a1.numeric())));
+          rv->insert(rv->begin() + p, (a1.isNull() ? Value(Value::type_integer) : Value(Value::toInteger(*a1.numeric()))));
           return val;
         }
         else if (a1.type() == Type::NO_TYPE)
@@ -137,7 +137,7 @@ Value& MemberINSERTExpression::value(Context& ctx) const
       case Type::NUMERIC:
         if (a1_type == Type::INTEGER)
         {
-          rv->insert(rv->begin() + p, Value(Numeric(*a1.integer())));
+          rv->insert(rv->begin() + p, (a1.isNull() ? Value(Value::type_numeric) : Value(Numeric(*a1.integer()))));
           return val;
         }
         else if (a1.type() == Type::NO_TYPE)
